@@ -192,9 +192,21 @@ impl<T> RcInner<T> {
         }
         if val.strong() == 0 {
             // The previous fetch_add created a permission to run decrement again.
-            // Now create an actual reference.
-            vy!(101, self as *const Self, 0);
-            self.state.fetch_add(COUNT, Ordering::SeqCst);
+            // Now create an actual reference. The pending destruction attempt may have used up
+            // that permission in the meantime (re-scheduling itself, or destructing the object if
+            // it ran twice): then this addition only re-creates the permission and another one
+            // is needed.
+            loop {
+                vy!(101, self as *const Self, 0);
+                let val = State::from_raw(self.state.fetch_add(COUNT, Ordering::SeqCst));
+                vy!(1001, self as *const Self, val.as_raw());
+                if val.destructed() {
+                    return false;
+                }
+                if val.strong() != 0 {
+                    break;
+                }
+            }
         }
         true
     }
